@@ -61,8 +61,7 @@ class C11(GProp):
             return []
         kind, v, lx = run_result(it[1])
         what = 'list %s on [%s]' % (sexp.dump(c['g'])[:110], ' '.join(c['text']))
-        eof_tail = self.bad_tail_at_eof(c)
-        tag = '[bad-last-segment-at-eof] ' if eof_tail else ''
+        tag = ''
         if kind in ('panic', 'diverged'):
             return [((1,), tag + '%s: %s' % (what, kind))]
         if ref[0] == 'fail':
@@ -82,7 +81,10 @@ class C11(GProp):
         # every bad segment's error lies between the separators (or list boundaries) delimiting its segment, inclusive
         bounds = list(peg.reference.list_bounds)
         if not fails and sexp.dump(c['g']).count('(list') == 1:
-            entries = [e for e in it[-1][1:] if not (isinstance(e, list) and e and e[0] == 'count')]
+            def untag(e):
+                while isinstance(e, list) and e and e[0] == 'tagged': e = e[-1]
+                return e
+            entries = [e for e in it[-1][1:] if not (isinstance(untag(e), list) and untag(e) and untag(e)[0] == 'count')]
             if len(entries) == len(bounds):
                 for n_, (e, (lo_b, hi_b)) in enumerate(zip(entries, bounds)):
                     for m in re.finditer(r'(\d+):\d+:\d+~(\d+):\d+:\d+', sexp.dump(e)):
@@ -92,15 +94,5 @@ class C11(GProp):
                                           % (what, n_ + 1, sexp.dump(e)[:100], m.group(0), lo_b, 'end' if hi_b is None else hi_b)))
                             break
         return fails
-
-    def bad_tail_at_eof(self, c):
-        """known class: the text holds no abort token after the last separator-delimited segment and that segment is bad"""
-        g = c['g']
-        while isinstance(g, list) and g[0] not in ('list', 'listb', 'listdef', 'listbdef'):
-            sub = [x for x in g[1:] if isinstance(x, list) and x and x[0] in parsegen.GHEADS]
-            if not sub:
-                return False
-            g = sub[-1]
-        return False
 
 PROP = C11()
